@@ -168,9 +168,10 @@ def _seq_job(job):
         earlier[0]['src'] = src
         last = {'src': src, 'top': '', 'boost': r.choice(['0', '1']), 'ign': ','.join(r.choice([[], [], ign[:1]]))}
         runs = earlier + [last]
-        for i, x in enumerate(runs):
-            x['outdir'] = os.path.join(d, 'seq%d' % i)
-            os.makedirs(x['outdir'])
+        shared = (k % 2 == 0)      # every second sequence writes all its runs into ONE output directory (stale files of
+        for i, x in enumerate(runs):  # earlier runs, written under other options, are in the way)
+            x['outdir'] = os.path.join(d, 'seq' if shared else 'seq%d' % i)
+            os.makedirs(x['outdir'], exist_ok=True)
         spec = os.path.join(d, 'seq.json')
         json.dump(runs, open(spec, 'w'))
         env = dict(os.environ, PYTHONHASHSEED='0', PYTHONPATH=common.REPO, VERIF_REPO=common.REPO)
@@ -196,6 +197,12 @@ def sequence_experiment(rep, seed, n):
         if 'error' in a or 'error' in b:
             rep.violation({'kind': 'harness-error', 'what': 'sequence driver failed', 'detail': [a, b]}, no_input=True)
             continue
+        if isinstance(a.get('matlab'), dict) and isinstance(b.get('matlab'), dict):
+            # a shared output directory keeps the files of earlier runs (classes that a later ignore list drops): what THIS
+            # run writes must be what it writes alone; files it does not write are not its output
+            a = dict(a, matlab={f: h for f, h in a['matlab'].items() if f in b['matlab']})
+        if isinstance(a.get('pybind_files'), dict) and isinstance(b.get('pybind_files'), dict):
+            a = dict(a, pybind_files={f: h for f, h in a['pybind_files'].items() if f in b['pybind_files']})
         if a != b:
             diff = [f for f in set(a.get('matlab', {}) if isinstance(a.get('matlab'), dict) else []) |
                     set(b.get('matlab', {}) if isinstance(b.get('matlab'), dict) else [])
